@@ -1,8 +1,12 @@
 """C05 - fallible operations return errors: no panics, no out-of-range results."""
 from ..rules_e1 import run_e1
 from ..rules_contract import run_contracts
+from ..rules_e2 import run_e2
 
 
 def run(ctx, rep):
     run_e1(ctx, rep, lambda E: E.public_result_roots(), min_roots=300, min_sites=800)
     run_contracts(ctx, rep)
+    import os
+    if os.path.exists(os.path.join(os.path.dirname(__file__), '..', '..', 'reviewed', 'ranged.tsv')):
+        run_e2(ctx, rep, floor=500)
